@@ -151,6 +151,9 @@ func (x *Exec) eval(ctx *SpecCtx, e *Expr) Value {
 	case "binary":
 		return x.evalBinary(ctx, e)
 	case "field":
+		if v, ok := x.evalPkgMember(ctx, e); ok {
+			return v
+		}
 		return x.evalField(ctx, x.eval(ctx, e.Args[0]), e.Name, e)
 	case "index":
 		base := x.eval(ctx, e.Args[0])
@@ -1426,4 +1429,48 @@ func (x *Exec) expandBounded(kind string, body *Term, v *Term) (*Term, bool) {
 		return b.And(inst...), true
 	}
 	return b.Or(inst...), true
+}
+
+// evalPkgMember resolves pkg.Name where pkg is the name of a package imported by the package of the
+// function under contract and Name is one of its package-level variables or integer/boolean constants
+// (e.g. bn256.OrderMinus1Bytes). A local variable or binding of the same name takes precedence.
+func (x *Exec) evalPkgMember(ctx *SpecCtx, e *Expr) (Value, bool) {
+	if e.Args[0].Kind != "ident" || ctx.pkg == nil || x.prog == nil {
+		return nil, false
+	}
+	pn := e.Args[0].Name
+	if _, ok := ctx.names[pn]; ok {
+		return nil, false
+	}
+	if ctx.fr != nil {
+		if _, ok := x.lookupLocal(ctx.st, ctx.fr, pn); ok {
+			return nil, false
+		}
+	}
+	if ctx.pkg.Scope().Lookup(pn) != nil {
+		return nil, false
+	}
+	for _, imp := range ctx.pkg.Imports() {
+		if imp.Name() != pn {
+			continue
+		}
+		obj := imp.Scope().Lookup(e.Name)
+		switch o := obj.(type) {
+		case *types.Const:
+			if o.Val().Kind() == constant.Int {
+				bi, _ := new(big.Int).SetString(o.Val().ExactString(), 10)
+				return x.b.IntB(bi), true
+			}
+			if o.Val().Kind() == constant.Bool {
+				return x.b.Bool(constant.BoolVal(o.Val())), true
+			}
+		case *types.Var:
+			if sp := x.prog.Pkgs[imp.Path()]; sp != nil {
+				if g, ok := sp.Members[e.Name].(*ssa.Global); ok {
+					return x.load(ctx.st, x.globalPtr(g)), true
+				}
+			}
+		}
+	}
+	return nil, false
 }
